@@ -37,8 +37,14 @@ def Code.run (E : Env) (s : State) : List Op → State
   | [] => s
   | op :: ops => Code.run E (Code.step E s op).1 ops
 
+/-- the integer arguments of a call are Go integers (only `Language.String`'s receiver needs it:
+every other function is proved equal to the model for unbounded integers) -/
+def Model.Op.inRange : Op → Prop
+  | .langString i => isInt64 i
+  | _ => True
+
 /-- one call on the translated source = one step of the model -/
-theorem refine_step (E : Env) (s : State) (op : Op) : Code.step E s op = Model.step E s op := by
+theorem refine_step (E : Env) (s : State) (op : Op) (hop : op.inRange) : Code.step E s op = Model.step E s op := by
   cases op with
   | newByEntropy e ℓ =>
     simp only [Code.step, runCode, refine_NewMnemonicByEntropy, Model.step]; rfl
@@ -51,13 +57,16 @@ theorem refine_step (E : Env) (s : State) (op : Op) : Code.step E s op = Model.s
   | seed m p =>
     simp only [Code.step, runCode, refine_MnemonicToSeed, Model.step]; rfl
   | langString i =>
-    simp only [Code.step, runCode, refine_Language_String, Model.step]
+    simp only [Code.step, runCode, refine_Language_String _ i _ hop, Model.step]
   | swapSource id => rfl
 
 /-- every history -/
-theorem refine_run (E : Env) (s : State) (ops : List Op) : Code.run E s ops = Model.run E s ops := by
+theorem refine_run (E : Env) (s : State) (ops : List Op) (hops : ∀ op ∈ ops, op.inRange) :
+    Code.run E s ops = Model.run E s ops := by
   induction ops generalizing s with
   | nil => rfl
-  | cons op ops ih => simp only [Code.run, Model.run, refine_step, ih]
+  | cons op ops ih =>
+    simp only [Code.run, Model.run, refine_step E s op (hops op List.mem_cons_self)]
+    exact ih _ (fun o ho => hops o (List.mem_cons_of_mem _ ho))
 
 end Bip39V
